@@ -18,9 +18,10 @@ from engine import tlc, core, tracecheck
 
 ADAPTER = "harness.adapters_c01:Adapter"
 ACTIONS = ["Choose", "Encode", "Modify", "Decode", "Reencode"]
-RUNS = {"quick": ["q_uniform", "q_dev", "q_shapes", "q_match", "q_mod", "q_nx", "q_nxm"],
-        "thorough": ["q_uniform", "q_dev", "q_shapes", "q_match", "q_mod", "q_nx", "q_nxm",
-                     "t_pairs", "t_shapes", "t_match_fm", "t_match_other", "t_long", "t_nx"]}
+RUNS = {"quick": ["q_dev", "q_dev_stats", "q_nx", "q_match", "q_uniform", "q_shapes", "q_nxm", "q_mod"],
+        # (longest first: the runs share the machine through a semaphore)
+        "thorough": ["t_long", "t_match_other", "t_shapes", "t_match_fm", "q_dev", "q_dev_stats", "q_nx", "t_nx", "q_match",
+                     "q_uniform", "t_pairs", "q_nxm", "q_shapes", "q_mod"]}
 # the recursive codec operators of the spec need a deeper Java stack than the default on long payloads / lists
 JENV = {"JAVA_TOOL_OPTIONS": "-Xss1g"}
 JUNK = {0: [], 8: [(i * 37 + 11) % 256 for i in range(1, 9)], 24: [(i * 37 + 11) % 256 for i in range(1, 25)]}
@@ -112,7 +113,7 @@ def _run(ctx, quick):
   layout = c01_lib.export_layout()
   # 1 + 2: model-check each family, replay what TLC printed
   names = RUNS[ctx.tier]
-  results = _parallel([_export(n) for n in names], 8 if quick else 13)
+  results = _parallel([_export(n) for n in names], 8 if quick else 10)
   agg = collections.Counter()
   own = 0
   keep = []
@@ -142,7 +143,7 @@ def _run(ctx, quick):
     _negative_replay(ctx, keep)
   # 4: code -> spec
   ntr = 500 if quick else 6000
-  traces = core.run_driver("props.C01:drive", [ctx.seed * 1000003 + i for i in range(ntr)])
+  traces = core.run_driver("props.C01:drive", [(ctx.seed * 1000003 + i, i) for i in range(ntr)])
   bad = copy.deepcopy(next(t for t in traces if all(e["wf"] for e in t)))
   for e in bad:
     if e["a"] == "Encode":
@@ -159,8 +160,8 @@ def _run(ctx, quick):
     nrej += 1
     ev = traces[t][matched]
     kind = traces[t][0]["args"]["msg"]["k"]
-    sig = dict(action=ev["a"], kind=kind, family="random",
-               observed=ev.get("why") or "rejected-by-spec")
+    sig = dict(action=ev["a"], kind=kind, modified=any(e["a"] == "Modify" for e in traces[t][:matched + 1]),
+               observed=ev.get("why") or "rejected-by-spec", via="trace")
     ctx.report(sig, dict(trace=traces[t], failing_step=matched, note="TLC rejected the trace at this event"))
   ctx.traces += len(traces)
   for t in traces[:3000]:
@@ -377,7 +378,10 @@ def _negative_replay(ctx, behs):
 _GEN = {}
 
 
-def drive(seed):
+def drive(item):
+  """item = (seed, index): indexes below 2 * (number of kinds) walk through every kind with the constructor's
+  defaults (first none, then a random half of the fields set); the rest is random"""
+  seed, idx = item
   from harness import c01_lib
   from harness.adapters_c01 import Adapter
   if "layout" not in _GEN:
@@ -385,7 +389,7 @@ def drive(seed):
   rnd = random.Random(seed)
   gen = c01_lib.Gen(_GEN["layout"], rnd)
   kinds = gen.top_kinds()
-  kind = kinds[seed % len(kinds)] if rnd.random() < 0.5 else rnd.choice(kinds)
+  kind = kinds[idx % len(kinds)] if (idx < 2 * len(kinds) or rnd.random() < 0.5) else rnd.choice(kinds)
   msg = gen.value(kind)
   ad = Adapter(_GEN["layout"])
   tr = []
@@ -416,9 +420,10 @@ def drive(seed):
     return wf
 
   partial = None
-  if rnd.random() < 0.2 and kind not in ("match", "actions", "props", "nxmatch") and isinstance(msg["f"], dict):
+  if (idx < 2 * len(kinds) or rnd.random() < 0.15) and kind not in ("match", "actions", "props", "nxmatch") \
+     and isinstance(msg["f"], dict):
     # the constructor's own defaults, with a random subset of the fields set
-    some = {n: v for n, v in msg["f"].items() if rnd.random() < 0.5}
+    some = {n: v for n, v in msg["f"].items() if idx >= len(kinds) and rnd.random() < 0.5}
     try:
       partial = ad.step("ChoosePartial", {"kind": kind, "fields": some})
     except Exception:
